@@ -173,7 +173,7 @@ def judge_and_report(ctx, rows, name, chunk_events=4000, par=8):
 MC_Q = [('MC_GoChannel_u_aswritten.cfg', 900, 'F3'), ('MC_GoChannel_b_lw.cfg', 900, 'LW'), ('MC_GoChannel_b_cl.cfg', 900, 'CL'),
         ('MC_GoChannel_b_dr.cfg', 900, 'DR'), ('MC_GoChannel_u_quick.cfg', 1200, None), ('MC_GoChannel_b1_quick.cfg', 1200, None),
         ('MC_GoChannel_b1_aswritten_quick.cfg', 1200, None)]
-MC_T = MC_Q[:4] + [('MC_GoChannel_u_thorough.cfg', 3000, None), ('MC_GoChannel_b1_thorough.cfg', 3000, None),
+MC_T = MC_Q[:4] + [('MC_GoChannel_u_thorough.cfg', 5400, None), ('MC_GoChannel_b1_thorough.cfg', 3000, None),
                    ('MC_GoChannel_b1x_thorough.cfg', 3000, None), ('MC_GoChannel_b2_quick.cfg', 3000, None), ('MC_GoChannel_b2_thorough.cfg', 3000, None),
                    ('MC_GoChannel_b1_aswritten_thorough.cfg', 3000, None),
                    ('MC_GoChannel_u_guardonly.cfg', 900, 'F3g'), ('MC_GoChannel_u_turnonly.cfg', 900, 'F3t')]
@@ -185,13 +185,14 @@ def mc_start(ctx, runs, pool):
     small = [x for x in runs if x[2] is not None]
     big = [x for x in runs if x[2] is None]
     w = max(2, 12 // max(len(big), 1))
+    heavy = {'MC_GoChannel_u_thorough.cfg': 6, 'MC_GoChannel_b1_aswritten_thorough.cfg': 3, 'MC_GoChannel_b1x_thorough.cfg': 3}
     res = {}
 
     def chain():
         for cfg, to, expect in small:
             res[cfg] = ctx.tlc('GoChannel', cfg, workers=2, timeout=to, xmx='4g')
     ch = pool.submit(chain)
-    futs = [(cfg, expect, pool.submit(ctx.tlc, 'GoChannel', cfg, workers=w, timeout=to, xmx='6g')) for cfg, to, expect in big]
+    futs = [(cfg, expect, pool.submit(ctx.tlc, 'GoChannel', cfg, workers=heavy.get(cfg, w), timeout=to, xmx='6g')) for cfg, to, expect in big]
 
     class Later:
         def __init__(self, cfg): self.cfg = cfg
@@ -246,7 +247,7 @@ def run(ctx):
     T['built'] = round(time.time() - t0, 1)
     # (mode, executions, extra args)
     modes = [('dir', 1600, ['--masks', 'ends']), ('rand', 300, []), ('gate', 5, [])] if quick else \
-            [('dir', 0, ['--masks', 'cap0all']), ('rand', 3000, []), ('gate', 25, [])]
+            [('dir', 0, ['--masks', 'cap0all']), ('rand', 2000, []), ('gate', 25, [])]
     rows = []
     rcs = {}
     for mode, n, extra in modes:
